@@ -1,31 +1,72 @@
 #!/bin/bash
-# tools/seed_matrix.sh [seed-dir...]: applies each seeded change to /repo in turn and runs ALL quick checks,
+# tools/seed_matrix.sh [seed-dir...]: applies each seeded change, alone, to a scratch worktree of /repo and runs the
+# quick checks of every property anchored in a crate the change touches (plus C20, which covers all middleware),
 # recording which checks raise a violation. Output: /verif/seeded/MATRIX.md (rewritten).
+# Works on a scratch copy (/tmp/mx: worktree of /repo HEAD + copy of the harness pointed at it), so neither /repo nor
+# /verif/harness is touched while it runs; the scratch copy is removed at the end. The regression tier is NOT used
+# (scratch --verif-dir without regress/): a V means the generated search found the change by itself.
+set -u
 cd /verif
 OUT=seeded/MATRIX.md
+MX=/tmp/mx
 SEEDS="${@:-$(ls -d seeded/C* | sort)}"
-echo "# Which quick checks catch which seeded change" > $OUT
-echo "" >> $OUT
-echo "One row per independently written breaking change (applied alone to /repo, all 20 quick checks run, change reverted). V = VIOLATION reported, . = silent, ? = exit 2." >> $OUT
-echo "" >> $OUT
-echo "| seed | $(seq -w 1 20 | sed 's/^/C/' | tr '\n' '|' | sed 's/|/ | /g')" >> $OUT
-echo "|---|$(seq 1 20 | sed 's/.*/---/' | tr '\n' '|')" >> $OUT
+rm -rf $MX; mkdir -p $MX
+git -C /repo worktree add -q --detach $MX/repo HEAD || exit 2
+rsync -a --exclude target --exclude fuzz /verif/harness $MX/
+sed -i "s#/repo/crates#$MX/repo/crates#g" $MX/harness/Cargo.toml
+export CARGO_NET_OFFLINE=true CARGO_TARGET_DIR=$MX/target
+props_for() { # crates touched by the patch -> property ids
+  local p="$1" out=""
+  grep -q "tower-resilience-bulkhead/" $p && out="$out C01 C07"
+  grep -q "tower-resilience-ratelimiter/" $p && out="$out C02 C15"
+  grep -q "tower-resilience-circuitbreaker/" $p && out="$out C03 C04 C09"
+  grep -q "tower-resilience-retry/" $p && out="$out C05 C08 C14 C16"
+  grep -q "tower-resilience-timelimiter/" $p && out="$out C06"
+  grep -q "tower-resilience-cache/" $p && out="$out C10"
+  grep -q "tower-resilience-coalesce/" $p && out="$out C11"
+  grep -q "tower-resilience-hedge/" $p && out="$out C12"
+  grep -q "tower-resilience-adaptive/" $p && out="$out C13"
+  grep -q "tower-resilience-reconnect/" $p && out="$out C16 C14"
+  grep -q "tower-resilience-fallback/" $p && out="$out C17"
+  grep -q "tower-resilience-healthcheck/" $p && out="$out C18"
+  grep -q "tower-resilience-chaos/" $p && out="$out C19"
+  grep -q "tower-resilience-core/" $p && out="$out C04 C05 C08 C13 C14"
+  grep -q "tower-resilience-healthcheck/" $p || out="$out C20"
+  echo $out | tr ' ' '\n' | sort -u | tr '\n' ' '
+}
+{
+echo "# Which quick checks catch which seeded change"
+echo ""
+echo "One row per independently written breaking change (applied alone to a scratch worktree of /repo HEAD; the quick"
+echo "checks of the properties anchored in the crates it touches, plus C20, are run without the regression tier; the"
+echo "change is reverted). V = VIOLATION reported (cases until found), . = silent, ? = exit 2, blank = not run (other crate)."
+echo ""
+echo "| seed | $(seq -w 1 20 | sed 's/^/C/' | tr '\n' '|' | sed 's/|/ | /g')"
+echo "|---|$(seq 1 20 | sed 's/.*/---/' | tr '\n' '|')"
+} > $OUT
 for d in $SEEDS; do
   name=$(basename $d)
-  P=$d/patch.diff
-  [ -f $d/patch-rebased-on-9d3785a.diff ] && P=$d/patch-rebased-on-9d3785a.diff
-  if ! git -C /repo apply --check $PWD/$P 2>/dev/null; then echo "| $name | (patch does not apply to the current tree) |" >> $OUT; continue; fi
-  git -C /repo apply $PWD/$P
-  (cd harness && CARGO_NET_OFFLINE=true cargo build --release --offline >/dev/null 2>&1)
+  P=/verif/$d/patch.diff
+  [ -f /verif/$d/patch-rebased-on-9d3785a.diff ] && P=/verif/$d/patch-rebased-on-9d3785a.diff
+  if ! git -C $MX/repo apply --check $P 2>/dev/null; then echo "| $name | (patch does not apply to the current tree) |" >> $OUT; continue; fi
+  git -C $MX/repo apply $P
+  todo=$(props_for $P)
+  if ! (cd $MX/harness && cargo build --release --offline >/dev/null 2>&1); then
+    echo "| $name | (harness does not build against this change) |" >> $OUT
+    git -C $MX/repo checkout -- . ; git -C $MX/repo clean -fdq crates; continue
+  fi
   row="| $name |"
   for i in $(seq -w 1 20); do
-    timeout 600 ./harness/target/release/vcheck C$i --tier quick --verif-dir /tmp/matrix_scratch >/dev/null 2>&1; code=$?
-    case $code in 0) c=".";; 1) c="V";; *) c="?";; esac
+    if echo " $todo " | grep -q " C$i "; then
+      out=$(timeout 900 $MX/target/release/vcheck C$i --tier quick --verif-dir $MX/scratch 2>&1); code=$?
+      n=$(echo "$out" | grep -oE "quick: [0-9]+ cases" | grep -oE "[0-9]+" | head -1)
+      case $code in 0) c=".";; 1) c="V($n)";; *) c="?";; esac
+    else c=" "; fi
     row="$row $c |"
   done
   echo "$row" >> $OUT
-  git -C /repo checkout -- .
+  git -C $MX/repo checkout -- . ; git -C $MX/repo clean -fdq crates
 done
-(cd harness && CARGO_NET_OFFLINE=true cargo build --release --offline >/dev/null 2>&1)
-rm -rf /tmp/matrix_scratch
+git -C /repo worktree remove --force $MX/repo; git -C /repo worktree prune
+rm -rf $MX
 echo done
